@@ -396,8 +396,8 @@ META = {
         "that no task body executes while suspended and that all queued work runs after resume() (scheduling loop + OS thread "
         "states over time; the per-worker state machine is C19); only 'thread_manager::suspend drains before suspending any "
         "pool' is proved",
-        "runtime::wait / runtime::stop / runtime::finalize / runtime::suspend / runtime::resume bodies (runtime.cpp) and "
-        "init_start_impl / start",
+        "runtime::stop / runtime::start / runtime::run bodies (runtime.cpp) and init_start_impl (rt.* units cover wait, the finalize "
+        "hand-shake, suspend and resume)",
         "memory-order adequacy of the acquire/release/relaxed accesses to the count (A-SC)",
     ],
 }
